@@ -364,4 +364,9 @@ def run(ctx: Ctx, tier: str) -> Result:
             res.ok("C11.METRIC", {prm: src})
         else:
             res.fail(Finding("C11.METRIC", cr.qname, prm, cr.loc(bc), "build_trigger parameter %s receives `%s` (expected the response field %s)" % (prm, src, pat)))
+    # ---------------- clauses resting on mechanisms decided for other properties
+    from .common import borrow
+    borrow(ctx, res, tier, "c17", ("C17.FAN",), "C11.METRIC", "one report per metric definition (every definition x every processor)")
+    borrow(ctx, res, tier, "c04", ("C04.INT",), "C11.LIMITS", "fire_count / fire_period are read as integers (-1 honoured), the default only for unparsable text")
+    borrow(ctx, res, tier, "c13", ("C13.ADD",), "C11.PUBLISH", "what is published is the service's tracepoints plus the registered ones, each once")
     return res
